@@ -570,9 +570,24 @@ def run_growth(case, res):
 SHARDED_GEN = True
 
 
+HOSTILE_CHARS = ["\x00", "\x0c", "\x1a", "\x1b", "\x7f", "\x85", "\ufeff", "\u2028", "\u2029", "\ud800", "\U0010ffff", "\r", "\x0b"]
+HOSTILE_FRAMES = [
+    "${%s}", "${'a%s'}", "${x | f%s}", "${x | f('%s')}", "<%% y = '%s' %%>", "<%%! z = '%s' %%>", "<%%\n%s\n%%>", "%% if '%s':\nx\n%% endif\n", "%% for i in '%s':\nx\n%% endfor\n",
+    '<%%def name="f(a=\'%s\')">x</%%def>', '<%%def name="f%s()">x</%%def>', "<%%include file=\"${'%s'}\"/>", '<%%include file="a%s.html"/>', '<%%page args="a=\'%s\'"/>',
+    '<%%call expr="f(\'%s\')">x</%%call>', '<%%block filter="g(\'%s\')">x</%%block>', "<%%text>%s</%%text>", "<%%doc>%s</%%doc>", "## %s\n", "plain %s text", "%%%% %s",
+]
+
+
+def hostile_strings():
+    """control characters, NUL, BOM, line/paragraph separators, a lone surrogate: inside every kind of directive and
+    in literal text - lexing ends with a tree or a Mako exception, never with another exception"""
+    return [fr % c for c in HOSTILE_CHARS for fr in HOSTILE_FRAMES]
+
+
 def gen_cases(tier, seed, shard, nshards):
     if shard == 0:
         yield {"kind": "suite"}
+        yield {"kind": "tok", "strings": hostile_strings()}
     yield from tok_strings(tier, seed, shard, nshards)
     ndocs = 3000 if tier == "quick" else 60000
     per = 50
